@@ -176,8 +176,8 @@ func runUnit(u Unit) UnitResult {
 				} else if b > 0 {
 					b--
 				}
-				if strings.HasPrefix(sc.Name, "cyclic/") {
-					continue
+				if strings.HasPrefix(sc.Name, "cyclic/") || strings.HasPrefix(sc.Name, "cancel/") {
+					continue // status points matter for the graph sweeps; the cancel family runs in the plain build
 				}
 			}
 			r := runX1Unit(u, sc, b)
@@ -476,6 +476,23 @@ func c04Scenarios(tier string) []*Scenario {
 				w.SpawnDriver(Op{Kind: "C", Job: 1, WaitAccepted: 1})
 			},
 			Check: chk, NoTick: true, FailOK: true, Bound: heavyBound(tier),
+		})
+	}
+	for _, g := range []struct {
+		n string
+		g map[string][]string
+	}{{"one", graphOne}, {"chain", graphChain}, {"par", graphPar}} {
+		g := g
+		cfg := PipeCfg{Conc: 1, QL: -1, Graph: g.g}
+		scs = append(scs, &Scenario{
+			Name: "cancel-running/task-reacts-to-stop/" + g.n,
+			Desc: "the cancelled task may die from the signal, handle it and exit non-zero, or handle it and exit 0",
+			Opts: func() WorldOpts { return WorldOpts{Defs: defsOf(cfg)} },
+			Setup: func(w *World) {
+				w.SpawnDriver(Op{Kind: "S", Pipeline: "p"})
+				w.SpawnDriver(Op{Kind: "C", Job: 1, WaitAccepted: 1})
+			},
+			Check: chk, NoTick: true, CancelOutcomes: true, Bound: heavyBound(tier),
 		})
 	}
 	for _, cont := range []bool{false, true} {
